@@ -3277,6 +3277,15 @@ class Group(System):
                 dct['name'] = resolver.abs2prom(n, 'output')
                 dct['source'] = n
                 dct['indices'] = None
+                if (n, n) not in self._subjacs_info:
+                    # The approximated group behaves like an explicit component: an output of a
+                    # component that declares no partials (matrix free) needs the -1 diagonal too.
+                    diag = SUBJAC_META_DEFAULTS.copy()
+                    diag['diagonal'] = True
+                    diag['val'] = np.full(m['size'], -1.0)
+                    self._subjacs_info[n, n] = Subjac.get_instance_metadata(diag, None,
+                                                                            (m['size'], m['size']),
+                                                                            self, (n, n))
 
             wrtset = set([wrt for _, wrt in approx_keys])
 
